@@ -202,7 +202,7 @@ fn make_artifact_case(d: &mut Dec, ctx: &mut Ctx) -> Value {
     let ui = d.below(p.units.len());
     let which_core = d.bool();
     let text = if which_core { &p.units[ui].2 } else { &p.units[ui].1 };
-    let mut mode = d.below(4);
+    let mut mode = d.below(5);
     // KF-35: core_ir is not integrity-protected; while that finding is open the
     // body of a .core file is only mutated outside core_ir
     let protect_core_ir = which_core && ctx.gated("artifact:core-ir");
@@ -248,6 +248,44 @@ fn make_artifact_case(d: &mut Dec, ctx: &mut Ctx) -> Value {
             }
         }
         (s, descs.join("; "))
+    } else if mode == 4 {
+        // names: a package name (the `package` field, a key of a `deps` table) becomes a long name
+        // with a multi-byte character at byte 56..72: whoever quotes or shortens names must cope
+        match serde_json::from_str::<Value>(text) {
+            Ok(mut v) => {
+                let n = 56 + d.below(17);
+                let wide: &str = d.pick(&["é", "✓", "𝄞"]);
+                let long = format!("{}{}{}", "P".repeat(n), wide, "q");
+                let ps = jsonmut::paths(&v);
+                let pkg_fields: Vec<Vec<jsonmut::Step>> =
+                    ps.iter().filter(|p| matches!(p.last(), Some(jsonmut::Step::Key(k)) if k == "package")).cloned().collect();
+                let dep_tables: Vec<Vec<jsonmut::Step>> =
+                    ps.iter().filter(|p| matches!(p.last(), Some(jsonmut::Step::Key(k)) if k == "deps")).cloned().collect();
+                let mut desc = String::from("names: nothing to rename");
+                if !dep_tables.is_empty() && (pkg_fields.is_empty() || d.bool()) {
+                    let pth = dep_tables[d.below(dep_tables.len())].clone();
+                    if let Some(Value::Object(m)) = jsonmut::get_mut(&mut v, &pth) {
+                        if let Some(k) = m.keys().next().cloned() {
+                            if let Some(val) = m.remove(&k) {
+                                m.insert(long.clone(), val);
+                                desc = format!("{}: key {k:?} -> long name ({n} bytes + {wide})", jsonmut::path_string(&pth));
+                            }
+                        } else {
+                            m.insert(long.clone(), Value::String("0".repeat(16)));
+                            desc = format!("{}: new key long name ({n} bytes + {wide})", jsonmut::path_string(&pth));
+                        }
+                    }
+                } else if !pkg_fields.is_empty() {
+                    let pth = pkg_fields[d.below(pkg_fields.len())].clone();
+                    if let Some(slot) = jsonmut::get_mut(&mut v, &pth) {
+                        *slot = Value::String(long.clone());
+                        desc = format!("{}: long name ({n} bytes + {wide})", jsonmut::path_string(&pth));
+                    }
+                }
+                (serde_json::to_string_pretty(&v).unwrap_or_default(), desc)
+            }
+            Err(_) => (text.clone(), "unparsed".into()),
+        }
     } else {
         match serde_json::from_str::<Value>(text) {
             Ok(mut v) => {
